@@ -656,8 +656,13 @@ def check_branches(F, res, emits, emit_self):
         if not good_world:
             res.bad(opname + '/decode-missing', 'no successful decode world for ' + opname)
         instr = ctor('ir::Instr', opname, [('0', ctor('ir::' + opname, opname, [('block', sym('B'))]))])
-        for w2 in enc.run_fn(emits['visit_instr'], [emit_self, instr, sym('loc')]):
+        enc_worlds = enc.run_fn(emits['visit_instr'], [emit_self, instr, sym('loc')])
+        if not any(w2.outcome == 'return' for w2 in enc_worlds):
+            res.bad(opname + '/encode', '%s has no path that encodes it' % opname)
+        for w2 in enc_worlds:
             ins = eff(w2, 'call', '::instruction')
+            if w2.outcome == 'panic' and not ins:
+                continue      # a label that is not on the block stack: documented panic ("bad transformation pass")
             if w2.outcome != 'return' or len(ins) != 1:
                 res.bad(opname + '/encode', '%s is encoded as %d instructions' % (opname, len(ins)))
                 continue
@@ -698,8 +703,13 @@ def check_branches(F, res, emits, emit_self):
     if not good_world:
         res.bad('BrTable/decode-missing', 'no successful decode world for BrTable')
     instr = ctor('ir::Instr', 'BrTable', [('0', ctor('ir::BrTable', 'BrTable', [('blocks', sym('BS')), ('default', sym('D'))]))])
-    for w2 in enc.run_fn(emits['visit_instr'], [emit_self, instr, sym('loc')]):
+    enc_worlds = enc.run_fn(emits['visit_instr'], [emit_self, instr, sym('loc')])
+    if not any(w2.outcome == 'return' for w2 in enc_worlds):
+        res.bad('BrTable/encode', 'br_table has no path that encodes it')
+    for w2 in enc_worlds:
         ins = eff(w2, 'call', '::instruction')
+        if w2.outcome == 'panic' and not ins:
+            continue
         if w2.outcome != 'return' or len(ins) != 1:
             res.bad('BrTable/encode', 'br_table is encoded as %d instructions' % len(ins))
             continue
